@@ -10,7 +10,7 @@
    nesting depth — so the theorems above quantify over exactly the trees the parser can produce. *)
 From Verif Require Import Spec.DocDomain Base.Str Base.Outcome Model.Ast Model.Token Model.Parser Model.Listener
   Spec.Sem Proofs.ListenerSem Proofs.ListenerFile Proofs.ParserShape Proofs.ParserComplete Model.Lexer Model.Transform Proofs.LexRender
-  Proofs.DeclRoundTrip Proofs.DocLex Proofs.DocParse Proofs.DocNatural Proofs.DocChars Proofs.DocSem Proofs.DocRoundTrip.
+  Proofs.DeclRoundTrip Proofs.DocLex Proofs.DocParse Proofs.DocNatural Proofs.DocChars Proofs.DocSem Proofs.DocRoundTrip Proofs.LexPartition.
 
 (* 1. a non-leading operand (a rewrite or a parenthesised group, nested to any depth) appends exactly its
       denotation and leaves the pending operator, the restrictions and the rewrite stack as they were *)
@@ -77,3 +77,9 @@ Theorem C03_canonical_layout_yields_the_model_written : forall v ts,
   std_version v = true -> Forall type_lex_ok ts -> Forall type_ok ts -> distinct_decls (doc_file v ts) ->
   exists exts md, dsl_to_model (text_of (ctoks_doc v ts) ++ [10]) = DOk (sem_file (doc_file v ts)) exts md.
 Proof. exact canonical_document_accepted. Qed.
+
+(* 9. whatever the layout: the tokens of an error-free lexing PARTITION the text — concatenated in order they are the
+      input, nothing is dropped and nothing duplicated, through every mode switch *)
+Theorem C03_tokens_partition_the_text : forall s,
+  snd (lex_all s) = [] -> concat (map ttext (fst (lex_all s))) = s.
+Proof. exact lex_all_partition. Qed.
